@@ -42,6 +42,7 @@ type FuncContract struct {
 	LoopInv      map[int][]Clause
 	LoopDec      map[int]ast.Expr
 	LoopStep     map[int][]Clause
+	LoopNoBreak  map[int]bool     // loop N nobreak: the loop is left only through its condition or by returning
 	LoopAssume   map[int][]Clause // facts about values the loop receives from outside (channel messages), assumed at the head
 	StreamInv    map[int][]Clause
 	StreamAssume map[int][]Clause
@@ -256,7 +257,7 @@ func (cs *Contracts) parseFile(text string, pkg *types.Package, file string) (er
 		switch {
 		case strings.HasPrefix(l, "func "):
 			sel := strings.TrimSpace(l[5:])
-			cur = &FuncContract{Selector: sel, Pkg: pkg, File: file, LoopInv: map[int][]Clause{}, LoopDec: map[int]ast.Expr{}, LoopStep: map[int][]Clause{}, LoopAssume: map[int][]Clause{}, StreamInv: map[int][]Clause{}, StreamAssume: map[int][]Clause{}, StreamStep: map[int]map[string][]Clause{}, AscendInv: map[int][]Clause{}, AscendStep: map[int][]Clause{}, AscendExit: map[int][]Clause{}, Flags: map[string]bool{}}
+			cur = &FuncContract{Selector: sel, Pkg: pkg, File: file, LoopInv: map[int][]Clause{}, LoopDec: map[int]ast.Expr{}, LoopStep: map[int][]Clause{}, LoopAssume: map[int][]Clause{}, LoopNoBreak: map[int]bool{}, StreamInv: map[int][]Clause{}, StreamAssume: map[int][]Clause{}, StreamStep: map[int]map[string][]Clause{}, AscendInv: map[int][]Clause{}, AscendStep: map[int][]Clause{}, AscendExit: map[int][]Clause{}, Flags: map[string]bool{}}
 			curLemma = nil
 			key := pkg.Path() + "|" + sel
 			if _, dup := cs.Funcs[key]; dup {
@@ -309,6 +310,8 @@ func (cs *Contracts) parseFile(text string, pkg *types.Package, file string) (er
 				cur.LoopStep[n] = append(cur.LoopStep[n], mkClause(strings.SplitN(l, " step ", 2)[1]))
 			case "assumes":
 				cur.LoopAssume[n] = append(cur.LoopAssume[n], mkClause(strings.SplitN(l, " assumes ", 2)[1]))
+			case "nobreak":
+				cur.LoopNoBreak[n] = true
 			default:
 				panic("unknown loop clause: " + l)
 			}
